@@ -32,17 +32,17 @@ CHECKS['C09'] = dict(
                dict(tu='c09_exhaust', group='deep_roundtrip', bounds=dict(dense=0), shards=3)]
               + [dict(tu=n, group='pairs', bounds=dict(big=0), shards=1) for n, i in _c09_parts]
               + [dict(tu='c09_views%d' % i, group='views', bounds=dict(big=0), shards=1) for i in (0, 1)]
-              + [dict(tu='c09_views0', group='virtual_views', shards=2)],
+              + [dict(tu='c09_views0', group='virtual_views', shards=2), dict(tu='c09_views0', group='stacked_adaptors', shards=1)],
         thorough=[dict(tu='c09_exhaust', group='rgb8_all', bounds=dict(more=1), shards=6),
                   dict(tu='c09_exhaust', group='rgba8_planes', bounds=dict(full=1), shards=32),
                   dict(tu='c09_exhaust', group='cmyk8_planes', bounds=dict(full=1), shards=16),
                   dict(tu='c09_exhaust', group='deep_roundtrip', bounds=dict(dense=1), shards=24)]
                  + [dict(tu=n, group='pairs', bounds=dict(big=1), shards=6) for n, i in _c09_parts]
                  + [dict(tu='c09_views%d' % i, group='views', bounds=dict(big=1), shards=4) for i in (0, 1)]
-                 + [dict(tu='c09_views0', group='virtual_views', shards=4)]),
+                 + [dict(tu='c09_views0', group='virtual_views', shards=4), dict(tu='c09_views0', group='stacked_adaptors', shards=1)]),
     witnesses_required=dict(all=[
         'rgb8_all_red_slices', 'rgba8_plane_rows', 'cmyk8_plane_rows', 'deep_roundtrip_slices', 'deep_roundtrip_signed_slices',
-        'virtual_source_views', 'pairs', 'pairs_cross_depth', 'pairs_layouts_differ', 'pairs_reordered_source_layout',
+        'virtual_source_views', 'conversion_stacked_on_stateful_adaptor', 'pairs', 'pairs_cross_depth', 'pairs_layouts_differ', 'pairs_reordered_source_layout',
         'clause_range', 'clause_black', 'clause_white', 'clause_grey_exact_8bit', 'clause_grey_to_rgb',
         'clause_luminance_weights', 'clause_luminance_monotone', 'clause_rgb_cmyk_rgb', 'clause_from_rgba_premultiplied',
         'clause_from_rgba_premultiplied_independent_u8', 'clause_to_rgba_alpha_max', 'clause_to_rgba_alpha_carried',
